@@ -588,13 +588,11 @@ fn c09_pack_integer_layout_all_i64() {
 fn c09_pack_mixed_layout() {
     let bits: u64 = kani::any();
     let raw: [u8; 2] = kani::any();
-    let as_text: bool = kani::any();
-    let third = if as_text {
-        kani::assume(raw[0] < 0x80 && raw[1] < 0x80);
-        SqliteValue::Text(CompactString::new(core::str::from_utf8(&raw).unwrap()))
-    } else {
-        SqliteValue::Blob(SmallVec::from_slice(&raw))
-    };
+    // (a Text column cannot be packed under Kani: compact_str's length read goes through an
+    // inline-asm optimisation barrier, which Kani does not support; text keys are covered on the
+    // unpack side and share this code path with blobs except for the type nibble)
+    let as_text = false;
+    let third = SqliteValue::Blob(SmallVec::from_slice(&raw));
     let cols = [SqliteValue::Real(Real(f64::from_bits(bits))), SqliteValue::Null, third];
     let packed = match pack_columns(&cols) {
         Ok(p) => p,
